@@ -61,3 +61,72 @@ Proof.
     eapply cr_visit with (x := 2%N) (pend' := []); [apply Permutation_refl|intros [C|[C|[]]]; discriminate|]. cbn.
     apply cr_done.
 Qed.
+
+(* ------------------------------------------------------------------ *)
+(* the closure with an aborting case (_resolve_origin in full) *)
+Lemma good_skip : forall succ x pend pend' seen S,
+  Permutation pend (x :: pend') -> good succ pend seen S -> good succ pend' seen S.
+Proof.
+  intros succ x pend pend' seen S HP [S1 [S2 S3]]. split; [exact S1|]. split; [|exact S3].
+  intros y Hy. apply S2. apply (Permutation_in _ (Permutation_sym HP)). right. exact Hy.
+Qed.
+
+Lemma good_visit : forall succ x pend pend' seen S,
+  Permutation pend (x :: pend') -> ~ In x seen -> good succ pend seen S -> good succ (succ x ++ pend') (x :: seen) S.
+Proof.
+  intros succ x pend pend' seen S HP Hnin [S1 [S2 S3]].
+  assert (HxS : In x S) by (apply S2; apply (Permutation_in _ (Permutation_sym HP)); left; reflexivity).
+  split; [intros y [Hy|Hy]; [subst; exact HxS|apply S1; exact Hy]|]. split.
+  - intros y Hy. apply in_app_or in Hy. destruct Hy as [Hy|Hy].
+    + apply (S3 x HxS Hnin). exact Hy.
+    + apply S2. apply (Permutation_in _ (Permutation_sym HP)). right. exact Hy.
+  - intros y Hy Hn. apply S3; [exact Hy|]. intros C. apply Hn. right. exact C.
+Qed.
+
+Lemma oclosure_some : forall succ known pend seen r, oclosure_run succ known pend seen (Some r) ->
+  closure_run succ pend seen r /\ forall x, In x r -> In x seen \/ known x = true.
+Proof.
+  intros succ known pend seen r H. remember (Some r) as o eqn:Eo. revert r Eo.
+  induction H as [seen | x pend pend' seen o HP Hin _ IH | x pend pend' seen HP Hnin Hk | x pend pend' seen o HP Hnin Hk _ IH];
+    intros r Eo.
+  - injection Eo as Eo. subst. split; [constructor|]. intros x Hx. left. exact Hx.
+  - destruct (IH r Eo) as [H1 H2]. split; [eapply cr_skip; eassumption|exact H2].
+  - discriminate.
+  - destruct (IH r Eo) as [H1 H2]. split; [eapply cr_visit; eassumption|].
+    intros y Hy. destruct (H2 y Hy) as [[E|Hs]|Hk']; [subst; right; exact Hk|left; exact Hs|right; exact Hk'].
+Qed.
+
+Lemma oclosure_none : forall succ known pend seen, oclosure_run succ known pend seen None ->
+  exists x, known x = false /\ ~ In x seen /\ forall S, good succ pend seen S -> In x S.
+Proof.
+  intros succ known pend seen H. remember (@None (list N)) as o eqn:Eo.
+  induction H as [seen | x pend pend' seen o HP Hin _ IH | x pend pend' seen HP Hnin Hk | x pend pend' seen o HP Hnin Hk _ IH].
+  - discriminate.
+  - destruct (IH Eo) as [y [Hy1 [Hy2 Hy3]]]. exists y. split; [exact Hy1|]. split; [exact Hy2|].
+    intros S HS. apply Hy3. eapply good_skip; eassumption.
+  - exists x. split; [exact Hk|]. split; [exact Hnin|].
+    intros S [_ [S2 _]]. apply S2. apply (Permutation_in _ (Permutation_sym HP)). left. reflexivity.
+  - destruct (IH Eo) as [y [Hy1 [Hy2 Hy3]]]. exists y. split; [exact Hy1|]. split; [intros C; apply Hy2; right; exact C|].
+    intros S HS. apply Hy3. eapply good_visit; eassumption.
+Qed.
+
+Theorem oclosure_choice_independent : forall succ known pend seen r1 r2,
+  oclosure_run succ known pend seen r1 -> oclosure_run succ known pend seen r2 ->
+  match r1, r2 with
+  | None, None => True
+  | Some a, Some b => forall x, In x a <-> In x b
+  | _, _ => False
+  end.
+Proof.
+  intros succ known pend seen r1 r2 H1 H2.
+  assert (Mixed : forall a, oclosure_run succ known pend seen (Some a) -> oclosure_run succ known pend seen None -> False).
+  { intros a Ha Hn. destruct (oclosure_some _ _ _ _ _ Ha) as [Hc Hknown].
+    destruct (oclosure_none _ _ _ _ Hn) as [x [Hx1 [Hx2 Hx3]]].
+    destruct (closure_least_good _ _ _ _ Hc) as [G _]. specialize (Hx3 a G).
+    destruct (Hknown x Hx3) as [Hs|Hk]; [contradiction|congruence]. }
+  destruct r1 as [a|], r2 as [b|].
+  - apply (closure_choice_independent succ pend seen); [apply (oclosure_some _ _ _ _ _ H1)|apply (oclosure_some _ _ _ _ _ H2)].
+  - exact (Mixed a H1 H2).
+  - exact (Mixed b H2 H1).
+  - exact I.
+Qed.
